@@ -417,7 +417,8 @@ impl<T: BitWrite> PackedWrite for T {
             self.write_bits_with_offset(&bytes[..], offset_bits)?;
             Ok(())
         } else {
-            let offset = value.leading_zeros() as u64 / 8;
+            // at least one octet, also for the value zero
+            let offset = (value.leading_zeros() as u64 / 8).min(std::mem::size_of::<u64>() as u64 - 1);
             let len = std::mem::size_of::<u64>() as u64 - offset;
             let bytes = value.to_be_bytes();
             self.write_length_determinant(None, None, len)?;
